@@ -223,7 +223,7 @@ def run(ctx):
         specs.append(dict(D=3, depth=1, cls="ConvBlock", input=S1[0], output=S1[1], use_group_norm=True, activation="relu", use_bias="auto"))
     jobs = [(ctx.repo, s) for s in specs]
     by = {}
-    for job, r in zip(jobs, ctx.pmap(worker, jobs, chunk=1)):
+    for job, r in ctx.pairs(worker, jobs, chunk=1):
         cfg = r["cfg"]
         ev.obligation("model", not r["problems"], tuple(str(v) for v in sorted(cfg.items())), sample={k: v for k, v in cfg.items()} if ev.obligations % 5 == 0 else None)
         for kind, what, site in r["problems"]:
